@@ -10,8 +10,8 @@ from vlib.verdict import Case
 
 PROPERTY = 'C16'
 MANIFEST = {
- 'level_text': 'Lean 4 theorems, kernel-checked, about a model of the four line-oriented databases (users.conf, channels.conf, networks.conf, ignores.conf): for every database state satisfying an explicit decidable Storable predicate, and every iteration order of the sets involved, reading back what the writers wrote returns exactly that state, without the loader stopping part-way and with the class-level reader state clean; the generic facts the round trips rest on (text-mode line splitting, expandtabs, split(None,1), the Reader block machine) are proved for all strings. The states outside Storable that the bot can really reach are proved NOT to round-trip on concrete witnesses, replayed on the real code on every run and listed as known findings. The model is tied to /repo by tables regenerated from the source (writer keywords, reader command vocabulary, case table) and by a differential run model-vs-real-code on API-built states and on generated files.',
- 'level_note': 'Trusted: Lean kernel; axioms propext/Classical.choice/Quot.sound only; harness/extractors/preserve.py; this harness (generators bound what the correspondence sees). Modelled: IrcUser/IrcChannel/IrcNetwork.preserve, the four flush methods, unpreserve.Reader.read, IrcUserCreator/IrcChannelCreator/IrcNetworkCreator with their class-level carry-over, UsersDictionary.setUser/getUserId as used while loading (caches empty), IgnoresDB.open/flush, int(float()) rounding. Parameters: hostmaskPatternEqual (theorems hold for every relation; driver uses C03.glob), str.lower (ASCII in the driver), safeEval restricted to True/False/None/integers. Not modelled: AtomicFile (C17), gpg, the _hostmaskCache/_nameCache (C04), Python literals other than those listed in bool fields, negative or non-ASCII-digit numbers.',
+ 'level_text': 'Lean 4 theorems, kernel-checked, about a model of the four line-oriented databases (users.conf, channels.conf, networks.conf, ignores.conf): for every database state satisfying an explicit decidable Storable predicate, and every iteration order of the sets involved (users_roundtrip_any_cap_order), reading back what the writers wrote returns exactly that state, without the loader stopping part-way and with the class-level reader state clean; conversely a set holding a capability and its inverse loses one of them in some order (inverse_pair_some_order_loses), so Storable is exact on that point. For every users state whose fields merely contain no line break (names with blanks, TABs, keywords; loads that stop anywhere; a half-built record left by an earlier failed load) a load never gives an account a capability its record did not have, keeps ids distinct, leaves line-safe fields, and a load that stops leaves the reader in a state from which nothing is ever loaded again (load_caps_sub, load_ids, load_safe, load_err_stuck, load_stuck). The generic facts these rest on (text-mode line splitting, expandtabs, split(None,1), the Reader block machine) are proved for all strings. The states outside Storable that the bot can really reach are proved NOT to round-trip on concrete witnesses, replayed on the real code on every run and listed as known findings. The model is tied to /repo by tables regenerated from the source (writer keywords, reader command vocabulary, case table) and by a differential run model-vs-real-code on API-built states, on generated files, on second saves and on saves failing at the k-th write.',
+ 'level_note': 'Trusted: Lean kernel; axioms propext/Classical.choice/Quot.sound only; harness/extractors/preserve.py; this harness (generators bound what the correspondence sees). Modelled: IrcUser/IrcChannel/IrcNetwork.preserve, the four flush methods, unpreserve.Reader.read, IrcUserCreator/IrcChannelCreator/IrcNetworkCreator with their class-level carry-over, UsersDictionary.setUser/getUserId as used while loading (caches empty), ircutils.hostmaskPatternsIntersect, IgnoresDB.open/flush, int(float()) rounding. Parameters: hostmaskPatternEqual and hostmaskPatternsIntersect (theorems hold for every pair of relations; the driver uses C03.glob and the modelled table algorithm, the latter compared with the source on generated patterns), str.lower (ASCII in the driver), safeEval restricted to True/False/None/integers. Not modelled: AtomicFile internals (C17; only its all-or-nothing contract is exercised), gpg, the _hostmaskCache/_nameCache (C04), Python literals other than those listed in bool fields, negative or non-ASCII-digit numbers.',
  'technique': 'Lean 4 proof (induction over records/lines, invariants of the reader machine) + table extraction + differential correspondence',
  'design_ref': 'DESIGN.md §6 C16',
 }
@@ -940,7 +940,21 @@ def micro_cases(I, r, n, out):
         else:
             q1 = ''.join(r.choice(alpha) for _ in range(r.randint(0, 7)))
         got = bool(I.ircutils.hostmaskPatternsIntersect(p1, q1))
-        c = Case({'op': 'hx', 'p': p1, 'q': q1}, impl='1' if got else '0', kind='micro', tags=('hx-%d' % got,))
+        # what the function is for, tested with the matcher itself: a string that both patterns match (looked for
+        # among short strings over the characters of the two patterns) means the answer must be True
+        ok_hx, msg_hx = True, ''
+        if not got and len(p1) + len(q1) <= 9:
+            import itertools
+            lits = sorted({ch for ch in p1 + q1 if ch not in '*?'} | {'x'})[:5]
+            for n_ in range(0, 5):
+                for w in itertools.product(lits, repeat=n_):
+                    w = ''.join(w)
+                    if I.ircutils.hostmaskPatternEqual(p1, w) and I.ircutils.hostmaskPatternEqual(q1, w):
+                        ok_hx, msg_hx = False, 'hostmaskPatternsIntersect(%r, %r) is False but %r matches both patterns' % (p1, q1, w)
+                        break
+                if not ok_hx: break
+        c = Case({'op': 'hx', 'p': p1, 'q': q1}, impl='1' if got else '0', kind='micro', tags=('hx-%d' % got,),
+                 oracle_ok=ok_hx, oracle_msg=msg_hx)
         out.append((c, ['hx\t%s\t%s' % (wire.enc(p1), wire.enc(q1))], lambda o: o[0]))
 
 # ---------------------------------------------------------------------------------------------
@@ -1014,6 +1028,11 @@ def resave_cases(I, r, n, out):
         A = snap()
         obj.filename = None                 # the modifications below must not save by themselves
         what = modify()
+        # the modification may have led into a known finding class (e.g. '#c,op' added to a set holding '-#c,op'):
+        # those states have their own stream and witnesses
+        if (which == 'users' and classes_users(I, snap_users(ud))) or (which == 'channels' and classes_chans(I, snap_chans(cd))) \
+                or (which == 'networks' and classes_nets(I, snap_nets(nd))):
+            continue
         obj.filename = fn
         B = snap()
         failed = False
